@@ -351,9 +351,12 @@ theorem idcStarO_order_independent {ordf : List World → List World} {dordf : L
               | none => rfl
               | some val =>
                 simp only
-                cases hx : exchangeOutcomes cf (newOutcomesAndConditions (orderDistrict false) nev O C).fst c val with
+                cases hx : exchangeStep cf (newOutcomesAndConditions (orderDistrict false) nev O C).fst c val with
                 | error err => rfl
-                | ok no' =>
+                | ok on =>
+                 cases on with
+                 | none => rfl
+                 | some no' =>
                   simp only
                   apply ih
                   -- the invariant of the next level, from the step lemma (for the sorted order)
@@ -382,7 +385,7 @@ theorem idcStarO_order_independent {ordf : List World → List World} {dordf : L
                     simp only [Option.some.injEq] at hg2
                     subst hg2
                     rw [hx] at hx2
-                    simp only [Except.ok.injEq] at hx2
+                    simp only [Except.ok.injEq, Option.some.injEq] at hx2
                     subst hx2
                     rw [hC'] at hinv'
                     exact hinv'
